@@ -335,7 +335,7 @@ type glog struct {
 	data  string
 	bn    uint64
 	tx    string
-	idx   int
+	idx   uint64
 	tok   int
 	norem bool // appears non-removed somewhere
 }
@@ -359,7 +359,13 @@ func genHistory(n int, rng *h.Rng, zeroBlocks bool) []glog {
 			g.bn = 0
 		}
 		g.tx = fmt.Sprintf("%02x", 1+j/2) // two logs per transaction …
-		g.idx = j % 2                     // … at different log indices
+		g.idx = uint64(j % 2)             // … at different log indices
+		switch rng.Intn(4) {
+		case 0: // positions that differ only beyond the low byte / low word (review E, T2)
+			g.idx = []uint64{255, 256, 257, 1 << 32, 1<<32 + 1, 1 << 63, 1<<64 - 257}[rng.Intn(7)] + uint64(j%2)*256
+		case 1: // transaction hashes that differ only in their HIGH bytes
+			g.tx = fmt.Sprintf("%02x%060x01", 1+j, 0)
+		}
 		if j > 0 && rng.Intn(3) == 0 {    // same data and block as an earlier log, different position
 			g.data, g.bn = H[rng.Intn(j)].data, H[rng.Intn(j)].bn
 		}
@@ -441,6 +447,45 @@ func gen(tier string, rng *h.Rng, emit func(string)) {
 	}
 	emit("fe -")
 	emit("fe x")
+	// 1a'. pairs of logs with equal data in one block whose chain positions differ ONLY in the high part of the log
+	// index / in one byte of the transaction hash (either end) / whose block numbers differ beyond 2^32 (review E, T2):
+	// both must be delivered
+	hiTx := func(b int, v byte) string { t := make([]byte, 32); t[31] = 1; t[b] ^= v; return h.Hex(t) }
+	for _, bn := range []uint64{5, 1 << 32, 1<<32 + 5, 1<<64 - 1} {
+		for _, d := range [][2]uint64{{0, 256}, {1, 257}, {0, 1 << 8}, {0, 1 << 16}, {0, 1 << 32}, {0, 1 << 63}, {255, 1<<64 - 1}, {1 << 32, 1<<32 + 256}} {
+			emit(fmt.Sprintf("fe aa:%d:%s:%d:0:0,aa:%d:%s:%d:0:1,aa:%d:%s:%d:0:0", bn, hiTx(0, 0), d[0], bn, hiTx(0, 0), d[1], bn, hiTx(0, 0), d[0]))
+		}
+		for _, b := range []int{0, 1, 7, 8, 15, 16, 23, 24, 30, 31} {
+			emit(fmt.Sprintf("fe aa:%d:%s:3:0:0,aa:%d:%s:3:0:1,aa:%d:%s:3:0:1", bn, hiTx(0, 0), bn, hiTx(b, 0x80), bn, hiTx(b, 0x80)))
+		}
+	}
+	for _, p := range [][2]uint64{{1, 1 + 1<<32}, {1 << 32, 1 << 33}, {5, 5 + 1<<56}, {1<<64 - 1, 1<<32 - 1}} {
+		emit(fmt.Sprintf("fe aa:%d:01:0:0:0,aa:%d:01:0:0:1", p[0], p[1]))
+	}
+	// 1a''. the timers really fire (window shortened through the hook): bursts whose timers expire together while new
+	// logs arrive, and re-delivery after the window
+	ntw := 4
+	if thorough {
+		ntw = 20
+	}
+	for i := 0; i < ntw; i++ {
+		H := genHistory(2+rng.Intn(6), rng, false)
+		var toks []string
+		for e := 0; e < 2+rng.Intn(2); e++ {
+			st := genStream(H, map[int]bool{}, rng)
+			st = st[:1+rng.Intn(len(st))]
+			toks = append(toks, st...)
+			switch rng.Intn(3) {
+			case 0:
+				toks = append(toks, fmt.Sprintf("B%d@%d", 50+rng.Intn(800), 100+10*i+e))
+			case 1:
+				toks = append(toks, fmt.Sprintf("T%d@%d", 5+rng.Intn(60), 1000+100*i+e))
+				continue
+			}
+			toks = append(toks, "w")
+		}
+		emit(fmt.Sprintf("tw %d %s", 120, strings.Join(toks, ",")))
+	}
 	// 1b. random histories, 1..3 streams, random interleaving
 	nfe := 3000
 	if thorough {
